@@ -24,7 +24,7 @@ PROP = Property(
 )
 
 META = {
-    "text": "Proof (layer A, unbounded in replicas, blocks, views, schedules): committed_blocks_on_one_branch — n >= 1 replicas, at most numFaulty(n) Byzantine, quorums of quorumSize(n) (intersection in an honest replica derived from C20's arithmetic by a counting lemma), honest replicas keeping the discipline (one vote per view; voted block's parent certified and lower; lock rule) => any two blocks meeting the commit condition b <- b' <- b'' (direct links, consecutive views, b'' certified) are on one branch; certified_extends_committed (every certified block at or above a committed block extends it); simple_rule_is_lock_rule (simplified HotStuff's vote condition is an instance). Tie and search: the cluster family runs 3..7 REAL replicas in one process against the same number of model replicas, line by line, under adversarial scripts written with the model's help: partitions, per-link delay/reordering/loss, fetch failures, local timeouts, and up to f Byzantine ids whose keys sign equivocating proposals, forks from older certified blocks, votes for everything, timeouts for current and future views, certificates assembled from votes seen on the wire. Oracle on the implementation's answers: every replica's commit log is a hash chain from genesis, any two logs are prefix-related, and every vote obeys the lock rule relative to the replica's earlier votes. Found with it and repaired: a replica that could not fetch a proposal's grandparent voted without locking and later voted for a conflicting branch (n=7, 2 Byzantine: two honest replicas committed a block three others never commit; corpus/cluster/01).",
+    "text": "Proof (layer A, unbounded in replicas, blocks, views, schedules): committed_blocks_on_one_branch — n >= 1 replicas, at most numFaulty(n) Byzantine, quorums of quorumSize(n) (intersection in an honest replica derived from C20's arithmetic by a counting lemma), honest replicas keeping the discipline (one vote per view; voted block's parent certified and lower; lock rule) => any two blocks meeting the commit condition b <- b' <- b'' (direct links, consecutive views, b'' certified) are on one branch; certified_extends_committed (every certified block at or above a committed block extends it); ledgers_prefix_related (two commit logs that are hash chains from genesis with increasing views and whose newest blocks meet the commit condition are prefix-related — the conclusion in the property's own terms); simple_rule_is_lock_rule (simplified HotStuff's vote condition is an instance). Tie and search: the cluster family runs 3..7 REAL replicas in one process against the same number of model replicas, line by line, under adversarial scripts written with the model's help: partitions, per-link delay/reordering/loss, fetch failures, local timeouts, and up to f Byzantine ids whose keys sign equivocating proposals, forks from older certified blocks, votes for everything, timeouts for current and future views, certificates assembled from votes seen on the wire. Oracle on the implementation's answers: every replica's commit log is a hash chain from genesis, any two logs are prefix-related, and every vote obeys the lock rule relative to the replica's earlier votes. Found with it and repaired: a replica that could not fetch a proposal's grandparent voted without locking and later voted for a conflicting branch (n=7, 2 Byzantine: two honest replicas committed a block three others never commit; corpus/cluster/01).",
     "note": "Partial: the discipline hypotheses are proved of the replica model only in part (C03); lock invariant and log construction rest on the correspondence + oracles; no Lean safety theorem for Fast-HotStuff.",
     "technique": "Lean 4 safety theorem over abstract vote histories + quorum counting lemma; multi-replica differential correspondence (real cluster vs model cluster) under model-guided adversarial scripts; ledger and lock-rule oracle",
 }
